@@ -44,6 +44,7 @@ type Program struct {
 	globalConst map[*ssa.Global]ssa.Value // init-time constant stores
 	globalStores map[*ssa.Global][]*ssa.Function
 	allFuncs []*ssa.Function
+	ghostTypes map[string]types.Type
 }
 
 func LoadProgram(repo string, overlay map[string][]byte) (*Program, error) {
